@@ -124,6 +124,20 @@ CLAIMED = {
         "to_save_dict/from_save_dict are parameters assumed mutually inverse; floats and sets are outside `value` (Python oracle only).",
    technique="Coq proof by induction on nested value trees + vm_compute correspondence on real objects through a real engine",
    design_ref="DESIGN.md §6 C06"),
+ "C18": dict(
+   category="proof",
+   text="Theorems in coq/Props/C18.v (closed; all stories, oracles, states) relating a Gallina model of cli/graph.py extract_connections to "
+        "the engine model: every jump spec render_passage can return and every choice it can offer sits at a position the graph walk visits "
+        "(token-tree induction), hence for every reachable state and index the passages entered by choose() before hooks run are the chosen "
+        "target via a choice edge followed by a chain of jump edges; every hop of a goto chain is a jump edge; every offered non-@join choice "
+        "is an edge; missing = referenced minus defined, and @join is never an edge target, referenced or missing.  Tie: real "
+        "extract_connections vs model on generated and JSON-edited stories (edges as sets); observed hops and offers during real play must be "
+        "reported edges; missing compared with an independent walk; generated emitted_kinds obligation (every {'type': kind} literal the "
+        "compiler can emit is known to the model and classified).",
+   note="Trusted: Coq kernel + vm_compute; Graph.v tied to graph.py and Engine.v tied to engine.py by their correspondence runs; the ast scan "
+        "for emitted token kinds; harness.",
+   technique="Coq proof by token-tree induction over engine + graph models, vm_compute correspondence, play-through hop oracle",
+   design_ref="DESIGN.md §6 C18"),
 }
 
 ALL = [f"C{i:02d}" for i in range(1, 21)]
